@@ -225,6 +225,8 @@ def check_rows(case, raw, stats):
                     a = rm.propensities(model, st, model["params"], 0.0, vol, True)
             except (ZeroDivisionError, ValueError, OverflowError):
                 break
+            if any(x != x for x in a):
+                break
             if all(x == 0 for x in a):
                 stats["absorbed_runs"] = stats.get("absorbed_runs", 0) + 1
                 if not np.all(rows[k:] == rows[k]):
